@@ -478,6 +478,8 @@ func httpHeaders(h HTTPCase, now time.Time) http.Header {
 		out.Set("Cache-Control", "max-age=0")
 	case "maxage1":
 		out.Set("Cache-Control", "max-age=1")
+	case "maxage6":
+		out.Set("Cache-Control", "max-age=6")
 	case "nostore_maxage":
 		out.Set("Cache-Control", "no-store, max-age=60")
 	case "private_maxage":
